@@ -1,4 +1,33 @@
-import SfxModel.Transcendental
+import SfxProofs.Iters
+/-
+  C17 — Math functions do a bounded amount of work, independent of operand magnitude.
+  `itersOf (Trans.run m)` is the number of loop-body executions recorded by the model (the model's `tick`s sit exactly where the
+  hook counter of `transcendental.rs` is incremented, and the correspondence check compares the two counts on every request).
+  The bounds hold for ALL layouts and ALL operands; the data-dependent loops are bounded because the model gives them fuel
+  (`log2Halve`: width + 1, range reduction: 2) and reports fuel exhaustion as a panic — that this panic is unreachable on supported
+  types is part of C12 (totality) and is exercised by the correspondence (the real loops have no fuel).
+-/
 namespace Sfx.C17
-theorem placeholder : True := trivial
+open Sfx.ItersPf
+
+def C17_statement : Prop :=
+  ∀ S D : Layout, D.f ≤ D.n → ∀ x y : Int,
+    itersOf (Trans.run (Trans.sqrt S D x)) ≤ 4 * D.n + 64 ∧ itersOf (Trans.run (Trans.log2 S D x)) ≤ 4 * D.n + 64 ∧
+    itersOf (Trans.run (Trans.ln S D x)) ≤ 4 * D.n + 64 ∧ itersOf (Trans.run (Trans.exp S D x)) ≤ 4 * D.n + 64 ∧
+    itersOf (Trans.run (Trans.pow S D x y)) ≤ 4 * D.n + 64 ∧ itersOf (Trans.run (Trans.sin D x)) ≤ 4 * D.n + 64 ∧
+    itersOf (Trans.run (Trans.cos D x)) ≤ 4 * D.n + 64 ∧ itersOf (Trans.run (Trans.tan D x)) ≤ 4 * D.n + 64
+
+theorem holds : C17_statement := fun S D hD x y => C17_bound S D hD x y
+
+/-- the sharper per-function counts -/
+theorem sharp (S D : Layout) (x y : Int) :
+    itersOf (Trans.run (Trans.sqrt S D x)) ≤ max D.f (D.intBits / 2 + 10) ∧
+    itersOf (Trans.run (Trans.log2 S D x)) ≤ (D.n + 1) + D.f ∧
+    itersOf (Trans.run (Trans.exp S D x)) ≤ D.f - 2 ∧
+    itersOf (Trans.run (Trans.pow S D x y)) ≤ (D.n + 1) + D.f + (D.f - 2) ∧
+    itersOf (Trans.run (Trans.sin D x)) ≤ 4 + 24 ∧ itersOf (Trans.run (Trans.tan D x)) ≤ 2 * (4 + 24) :=
+  ⟨sqrt_iters S D x, log2_iters S D x, exp_iters S D x, pow_iters S D x y, cordicSteps_eq ▸ sin_iters D x, cordicSteps_eq ▸ tan_iters D x⟩
+
+example : ((⟨true, 64, 32⟩ : Layout).f ≤ (⟨true, 64, 32⟩ : Layout).n) := by decide
+
 end Sfx.C17
